@@ -70,8 +70,15 @@ pub fn replicate_into(scene: &mut DynamicScene, world: &World) {
             entities.entry(entity.id()).or_default();
         }
 
+        let mut replicated_ids = Vec::new();
         for rule in rules.iter().filter(|rule| rule.matches(archetype)) {
             for component in &rule.components {
+                // Rules can overlap, each component should be extracted only once.
+                if replicated_ids.contains(&component.id) {
+                    continue;
+                }
+                replicated_ids.push(component.id);
+
                 // SAFETY: replication rules can be registered only with valid component IDs.
                 let replicated_component =
                     unsafe { world.components().get_info_unchecked(component.id) };
